@@ -1,5 +1,6 @@
 use crate::ctx::Ctx;
 pub mod chunker;
+pub mod crash;
 pub mod hashes;
 pub mod bg4;
 pub mod xorb;
@@ -38,6 +39,8 @@ pub fn run(suite: &str, ctx: &mut Ctx) -> bool {
         "interp_search" => interp_search::run(ctx),
         "xorb" => xorb::run_roundtrip(ctx),
         "xorb_validate" => xorb::run_validate(ctx),
+        "crash" => crash::run_parent(ctx),
+        "crash-child" => crash::run_child(ctx),
         _ => return false,
     }
     true
